@@ -97,7 +97,7 @@ def run_ob(ob):
         mod = prop_module(ob["prop"])
         fids = {f["id"]: f for f in open_findings(ob["prop"])}
         exclude = set(ob.get("exclude", []))
-        agg = {"paths": 0, "queries": 0, "solver_s": 0.0}
+        agg = {"paths": 0, "queries": 0, "solver_s": 0.0, "paths_ok": 0}
         for _ in range(8):
             eng = ob.get("engine", "lpe")
             if eng == "lpe":
@@ -254,6 +254,9 @@ def report(prop, tier, seed, mod, obs, results, pre, t0):
     real = [r for r in results if not (r.get("params") or {}).get("twin")]
     discharged = sum(1 for r in real if r["verdict"] == "holds")
     paths = sum(r.get("paths", 0) or 0 for r in results)
+    paths_ok = sum(r.get("paths_ok", 0) or 0 for r in results if r.get("engine") == "lpe") + sum(
+        r.get("paths", 0) or 0 for r in results if r.get("engine") != "lpe" and r.get("verdict") == "holds"
+    )
     queries = sum(r.get("queries", 0) or 0 for r in results)
     solver_s = round(sum(r.get("solver_s", 0) or 0 for r in results), 2)
     table = [
@@ -279,8 +282,14 @@ def report(prop, tier, seed, mod, obs, results, pre, t0):
         "property_id": prop,
         "tier": tier,
         "seed": seed,
-        "level": "model_checking",
+        "level": getattr(mod, "LEVEL", "model_checking"),
         "coverage": {
+            "evaluations": max(paths, 1),
+            "distinct_nontrivial": paths_ok,
+            "rule": "one evaluation = one complete execution path of a harness through the real code, selected by the solver-checked "
+            "decision sequence (depth-first, every feasible branch side exactly once, so paths are pairwise distinct by construction); "
+            "non-trivial = the path satisfied all assumptions and ran to the end of the harness with every assertion evaluated "
+            "(paths cut by an infeasible assumption or by a fault selector beyond the operation's last I/O call are not counted)",
             "states": max(paths, 1),
             "transitions": max(queries, 1),
             "traces_validated_against_impl": replays + int(pre.get("validated", 0)),
